@@ -135,6 +135,16 @@ static std::vector<Instance> instances(const std::string &tier) {
 	// (A and D share an inner node that indexes on nibble 13; nibble 14 is compressed away): "a value stored under exactly
 	// the requested key" - or null
 	add("S10-absent-keys-in-a-skipped-nibble", Bq, Script{{{false, A}}, {{false, D}, {false, E}}, {{A + 0x10, D + 0xf0, A + 0x20}}});
+	// a path without any compression: an inner node at every depth 0..14 above the leaf (16 nodes from the root to the value).
+	// Fifteen keys that each share one more nibble with key 0 build it; the writer adds the last two splits while the reader
+	// looks for key 0 (present throughout) and for the newly inserted keys
+	{
+		Script fd; fd.setup.push_back({false, 0});
+		for(int sh = 60; sh >= 12; sh -= 4) fd.setup.push_back({false, uint64_t(1) << sh});
+		fd.writer = {{false, uint64_t(1) << 8}, {false, uint64_t(1) << 4}};
+		fd.readers = {{0, uint64_t(1) << 4, 0}};
+		add("S12-full-depth-path", Bq, fd);
+	}
 	add("S11-absent-keys-while-erasing", Bq, Script{{{false, A}, {false, D}}, {{true, A}, {false, A + 0x30}}, {{A + 0x10, A + 0x30, D + 0x10}}});
 	if(th) {
 		add("S6-two-readers", 2, Script{{{false, A}}, {{false, B}, {false, D}}, {{A, B}, {D, A}}});
